@@ -37,9 +37,9 @@ func (s *site) dupCause(ref blob.Ref) string {
 	if s.lw == nil || s.zc == nil {
 		return "unknown"
 	}
-	_, inSmall := s.lw.small.BlobContents(ref)
+	_, inSmall := s.lw.smallData(ref)
 	zips, repeated := 0, false
-	for _, zr := range refsOf(s.lw.large) {
+	for _, zr := range s.lw.largeRefs() {
 		zi := s.zipOf(zr)
 		if zi.Contained[ref] {
 			zips++
@@ -64,7 +64,7 @@ func (s *site) leftCause(ref blob.Ref) string {
 	if s.lw == nil {
 		return "unknown"
 	}
-	if _, ok := s.lw.small.BlobContents(ref); ok {
+	if _, ok := s.lw.smallData(ref); ok {
 		return "loose-copy-left"
 	}
 	if _, err := s.lw.meta.Get("b:" + ref.String()); err == nil {
@@ -151,8 +151,15 @@ func (s *site) checker(st blobserver.Storage, present map[blob.Ref][]byte, uncer
 func (s *site) clientAudit(ck *sto.Checker, rng *rand.Rand, wholeMust map[blob.Ref]bool) {
 	before := ck.Evals
 	ck.Audit(rng, false)
-	// range-fetch grid
-	for _, b := range s.w.Universe {
+	// range-fetch grid (over a seeded sample of the blobs for the very large files)
+	grid := s.w.Universe
+	if s.w.big() && len(grid) > 48 {
+		grid = make([]sto.Blob, 48)
+		for i, p := range rng.Perm(len(s.w.Universe))[:48] {
+			grid[i] = s.w.Universe[p]
+		}
+	}
+	for _, b := range grid {
 		n := int64(len(b.Data))
 		if n < 2 {
 			continue
@@ -350,8 +357,11 @@ func compareStream(r io.Reader, want []byte) (n int64, same bool, err error) {
 // zipOf returns the validation of one blob of large; a zip seen for the first time in the
 // case is judged here.
 func (s *site) zipOf(br blob.Ref) *zipInfo {
-	c, _ := s.lw.large.BlobContents(br)
-	zi, fresh := s.zc.get(s.w, br, []byte(c))
+	if zi := s.zc.peek(br); zi != nil {
+		return zi
+	}
+	c, _ := s.lw.largeData(br)
+	zi, fresh := s.zc.get(s.w, br, c)
 	if fresh {
 		s.r.Count("zips_validated", 1)
 		s.r.Eval(1)
@@ -375,7 +385,7 @@ func (s *site) zipOf(br blob.Ref) *zipInfo {
 func (s *site) zipAudit() (contained map[blob.Ref]bool, nzips int) {
 	contained = map[blob.Ref]bool{}
 	var zis []*zipInfo
-	for _, br := range refsOf(s.lw.large) {
+	for _, br := range s.lw.largeRefs() {
 		zi := s.zipOf(br)
 		for r := range zi.Contained {
 			contained[r] = true
